@@ -146,6 +146,7 @@ pub fn run(ctx: &Ctx) -> Report {
         "table_len_2^k+1",
         "leap_table_present",
         "negative_leap_second",
+        "leap_record_at_the_top_of_the_i64_range",
         "before_first_transition",
         "between_transitions",
         "after_last_with_rule",
@@ -269,5 +270,41 @@ pub fn run(ctx: &Ctx) -> Report {
             }
         });
     }
+    // wl 7: leap tables whose last record sits at the top of the i64 range (positive and negative last step), zones
+    // with a table and with / without a fixed rule: lookups within a few seconds of i64::MAX, where a running sum that
+    // saturates or wraps compares differently from the exact one
+    run_cases(ctx, &mut rep, 7, ctx.n(400, 4000), |l, rng, _| {
+        let mut leaps: Vec<(i64, i32)> = vec![];
+        let mut c: i32 = if rng.chance(1, 2) { 1 } else { -1 };
+        let mut t: i64 = rng.range(0, 1_000_000);
+        for _ in 0..rng.below(4) {
+            leaps.push((t, c));
+            t += rng.range(2_419_199, 90_000_000);
+            c += if rng.chance(1, 2) { 1 } else { -1 };
+        }
+        if leaps.is_empty() {
+            c = if rng.chance(1, 2) { 1 } else { -1 };
+        }
+        leaps.push((i64::MAX - rng.below(3) as i64, c));
+        let types = vec![TypeSpec::new(0, false, Some("AAA")), TypeSpec::new(3600, true, Some("BBB")), TypeSpec::new(-7200, false, Some("CCC"))];
+        let last = match rng.below(3) {
+            0 => i64::MAX,
+            1 => i64::MAX - rng.range(1, 5),
+            _ => rng.range(2000, 1 << 40),
+        };
+        let transitions = vec![(-1000, 1), (1000, 2), (last, 1)];
+        let rule = if rng.chance(1, 2) { Some(crate::model::zone::RuleSpec::Fixed(types[1].clone())) } else { None };
+        let mut z = ZoneSpec { transitions, types, leaps: crate::model::leap::LeapTable(leaps), rule };
+        // the last clause of the constructor's sentence needs the UTC instant of the last transition: where that is
+        // not an i64 the clause cannot be evaluated (left open by the statement), so such a zone gets no rule
+        let x = z.leaps.switch(last);
+        if x > i64::MAX as i128 || x < i64::MIN as i128 {
+            z.rule = None;
+        }
+        let calls = check_zone(l, &z, rng, 8, 2);
+        l.class("leap_record_at_the_top_of_the_i64_range");
+        l.op_n("find_local_time_type", calls);
+        l.distinct_hash(zone_hash(&z));
+    });
     rep
 }
